@@ -168,8 +168,8 @@ def reorderVarL (var : String) (al : LevelSets) : M (Nat × LevelSets) := do
   return (k, al)
 
 /-- `for var in names: _reorder_var(bdd, var, levels)` -/
-def siftVarsL : List String → LevelSets → M LevelSets
-  | [], al => pure al
+def siftVarsL : List String → LevelSets → M (Unit × LevelSets)
+  | [], al => pure ((), al)
   | var :: rest, al => do
     let (_, al) ← reorderVarL var al
     siftVarsL rest al
@@ -187,7 +187,8 @@ def applySiftingL : M Unit := do
   M.assert (m.len ≤ n)
 
 /-- one comparison of the bubble sort -/
-def sortStepL (order : List (String × Int)) (i : Nat) (al : LevelSets) : M LevelSets := do
+def sortStepL (order : List (String × Int)) (i : Nat) (al : LevelSets) :
+    M (Unit × LevelSets) := do
   checkRoots
   let x ← varAtLevel i
   let y ← varAtLevel (i + 1)
@@ -195,19 +196,19 @@ def sortStepL (order : List (String × Int)) (i : Nat) (al : LevelSets) : M Leve
   let q ← M.ofOption .key (order.lookup y)
   if p > q then
     let (_, al) ← swapL (.level i) (.level (i + 1)) (some al)
-    return al
-  else return al
+    return ((), al)
+  else return ((), al)
 
-def sortInnerL (order : List (String × Int)) : List Nat → LevelSets → M LevelSets
-  | [], al => pure al
+def sortInnerL (order : List (String × Int)) : List Nat → LevelSets → M (Unit × LevelSets)
+  | [], al => pure ((), al)
   | i :: rest, al => do
-    let al ← sortStepL order i al
+    let (_, al) ← sortStepL order i al
     sortInnerL order rest al
 
-def sortOuterL (order : List (String × Int)) (n : Nat) : Nat → LevelSets → M LevelSets
-  | 0, al => pure al
+def sortOuterL (order : List (String × Int)) (n : Nat) : Nat → LevelSets → M (Unit × LevelSets)
+  | 0, al => pure ((), al)
   | k+1, al => do
-    let al ← sortInnerL order (List.range (n - 1)) al
+    let (_, al) ← sortInnerL order (List.range (n - 1)) al
     sortOuterL order n k al
 
 /-- `_sort_to_order(bdd, order)`: `levels = bdd._levels()` once -/
@@ -224,7 +225,7 @@ def reorderL (order : Option (List (String × Int))) : M Unit :=
   | some o => sortToOrderL o
 
 /-- one pair of `reorder_to_pairs` -/
-def pairStepL (x y : String) (al : LevelSets) : M LevelSets := do
+def pairStepL (x y : String) (al : LevelSets) : M (Unit × LevelSets) := do
   let jx ← levelOfVar x
   let jy ← levelOfVar y
   let k := if jx ≤ jy then jy - jx else jx - jy
@@ -232,13 +233,13 @@ def pairStepL (x y : String) (al : LevelSets) : M LevelSets := do
   if k ≠ 1 then
     let (jx, jy) := if jx > jy then (jy, jx) else (jx, jy)
     let (_, al) ← shiftL jx (jy - 1) al
-    return al
-  else return al
+    return ((), al)
+  else return ((), al)
 
-def pairsLoopL : List (String × String) → LevelSets → M LevelSets
-  | [], al => pure al
+def pairsLoopL : List (String × String) → LevelSets → M (Unit × LevelSets)
+  | [], al => pure ((), al)
   | (x, y) :: rest, al => do
-    let al ← pairStepL x y al
+    let (_, al) ← pairStepL x y al
     pairsLoopL rest al
 
 /-- `reorder_to_pairs(bdd, pairs)`: `levels = bdd._levels()` once -/
